@@ -9,6 +9,12 @@ var props = map[string]propMeta{
 	"C02": {Level: "exploration", Builds: []build{bPlain},
 		Rule:        "every length structure (attribute-length sequences over a body bound x declared length x buffer length), every tiny-alphabet body x declared length, the large family and all 65536 type words, each decoded by Message.Decode and by an independent RFC 5389 parser and compared field by field, then Get/Contains/ForEach checked on every type present and one absent; distinct = distinct input byte strings (64-bit hash set, capped at 3M per shard)",
 		Assumptions: []string{goAssume, "value byte content is drawn from fixed fillers; the length/offset structure is what is enumerated exhaustively"}},
+	"C16": {Level: "exploration", Builds: []build{bPlain},
+		Rule: "every string over the 20-symbol alphabet up to the length bound after each of 7 prefixes (stun: stuns: turn: turns: none STUN: stun://) plus a deterministic long family (1e5 repetitions of each symbol, nested brackets, long ports/queries); each parsed in a child process with a 16 MB stack cap and an 8 s per-string hang watchdog, crashing batches bisected to one string; distinct = number of distinct enumeration indices parsed (index -> string is a bijection)",
+		Assumptions: []string{goAssume, "a fatal stack overflow at 16 MB stands for unbounded recursion; time bound = 8 s per string"}},
+	"C17": {Level: "exploration", Builds: []build{bPlain},
+		Rule: "grammar product 8 schemes x 10 hosts x 15 ports x 15 queries, expectation derived from the generated components; plus every string of the C16 alphabet up to the length bound checked for the accepted-URI invariants and the String/ParseURI round trip; plus DialURI for all 5x3 (scheme,transport) values x 3 hosts on a recording transport.Net (network, address, first record on the wire, SNI); distinct = distinct strings / dial configurations",
+		Assumptions: []string{goAssume, "DTLS/TLS ClientHello recognised by record type 0x16 and version bytes; SNI located by its length-prefixed encoding", "ambiguous corners (upper-case scheme, '+5', leading zeros, bare '?', repeated or valueless transport key) assert only 'if accepted then sound'"}},
 	"C19": {Level: "exploration", Builds: []build{bPlain}, Shards: 4,
 		Rule:        "complete domain: all 4096x4 (method,class) pairs through Value/SetType and all 65536 wire words through ReadValue/Decode, each compared with a bit-by-bit reference built from RFC 5389 figure 3; every case is distinct by construction and counted through a hash set",
 		Assumptions: []string{goAssume}},
